@@ -24,6 +24,8 @@ for d in sorted(glob.glob(os.path.join(VERIF, "seeded", "*"))):
                                                  " — " + "; ".join(keys[:2]) if keys else ""))
         else:
             checks.append("%s: **not reported** (rc=%s)" % (k[6:], c["rc"]))
+    if m.get("obsolete"):
+        checks = ["obsolete: " + m["obsolete"][:200]]
     suite = (v.get("suite_tail") or "").splitlines()[-1:] or [""]
     rows.append((os.path.basename(d), m.get("property", "?"), " ".join(str(m.get("summary", "")).split())[:230],
                  " ".join(str(m.get("needs", "")).split())[:200],
